@@ -276,6 +276,55 @@ def run(ctx, rep):
                           'the free-slot search does not reset its run counter on a used slot: %s; the `run` of free slots '
                           'can then span live entries, which are overwritten by the new entry' % detail)
 
+    # ---------------- R3.7b the run is long enough exactly when it has `num_entries` slots, the current one included
+    if FF is not None and counter is not None:
+        ok_b = False
+        found = 0
+        why_b = 'no comparison of the run counter with the number of entries needed was found'
+        heads = list(FF.loops())
+        for bi in FF.reachable():
+            t = FF.blocks[bi]['term']
+            if t['k'] != 'switch':
+                continue
+            src = switch_source(FF, bi)
+            if not (src and src['kind'] == 'binop' and src['op'] in ('Eq', 'Ge', 'Le', 'Gt', 'Lt', 'Ne')):
+                continue
+            for x, y in ((src['a'], src['b']), (src['b'], src['a'])):
+                if ('param', 2) not in d.of_operand(y) or ('local', counter) not in d.of_operand(x) | {('local', (op_place(x) or {}).get('l'))}:
+                    continue
+                found += 1
+                # the compared value: a plain copy of the counter, or counter + 1 computed on the side
+                px = op_place(x)
+                plain = px is not None and not px['p'] and (px['l'] == counter or any(
+                    s_['k'] == 'assign' and s_['lhs']['l'] == px['l'] and s_['rv']['k'] == 'use' and
+                    (op_place(s_['rv']['a']) or {}).get('l') == counter and not (op_place(s_['rv']['a']) or {'p': 1})['p']
+                    for bj in FF.reachable() for s_ in FF.blocks[bj]['stmts']))
+                if not plain:
+                    ok_b = True  # `counter + 1 == needed` style: the current slot is added in the comparison itself
+                    continue
+                cmp_blk = src.get('blk', bi)
+                # every path from the loop head to the comparison passes the increment for the current slot
+                dominated = all(cmp_blk not in FF.reach_from([h], cut_blocks=incs) or cmp_blk in incs for h in heads)
+                # ... or the comparison block itself increments before it compares
+                if cmp_blk in incs:
+                    stmts = FF.blocks[cmp_blk]['stmts']
+                    inc_i = max(i for i, s_ in enumerate(stmts) if s_['k'] == 'assign' and s_['lhs']['l'] == counter)
+                    cmp_i = max((i for i, s_ in enumerate(stmts) if s_['k'] == 'assign' and s_['rv']['k'] == 'binop' and
+                                 s_['rv']['op'] == src['op']), default=len(stmts))
+                    dominated = inc_i < cmp_i
+                if dominated:
+                    ok_b = True
+                else:
+                    ok_b = False
+                    why_b = ('the run counter is compared with the number of slots needed before it has been incremented for '
+                             'the current free slot: a run is accepted only when it is one slot longer than needed, so an '
+                             'exactly fitting hole (e.g. in a full fixed-size root directory) is reported as no space')
+                    break
+        rep.oblige('R3.7b', FF.name, ok=ok_b, nontrivial=True,
+                   sample={'fn': FF.name, 'comparisons': found, 'rule': 'increment for the current slot precedes the sufficiency test'})
+        if not ok_b:
+            rep.violation('R3.7b', vkey('R3.7b', FF.name, 'count-current-slot', ''), FF.loc(FF.span), why_b)
+
     # ---------------- R3.8 truncate order
     CT = facts.fns.get('fatfs::table::ClusterIterator::truncate')
     if CT is None:
